@@ -18,7 +18,7 @@ theorem ScopeLike.of_blkEq {s₀ w w' : St} (h : ScopeLike s₀ w) (e : SEq w w'
 def EPost (P : Params) (t w : St) : PUnit → St → PUnit → St → Prop :=
   fun _ t' _ w' => ASim P t' w' ∧ SEq t t' ∧ SEq w w' ∧ BlkEq t t' ∧ BlkEq w w'
 
-theorem E_rel (ok : P.Ok) (s₀ : St) (d : Dest) (hd : rnDest P.ρ d = d) (f₁ : Nat)
+theorem E_rel (ok : P.Ok) (s₀ : St) (d : Dest) (hd : rnDest P.ρ d = d) (hdn : P.op = true → d ≠ Dest.none) (f₁ : Nat)
     (hsrc : ∀ src, src < s₀.groups.size → P.γ src = src ∧ P.DG src ∧ ¬ P.T src)
     (hval : ∀ (e : Edge) (src : Nat) (s' : St), (groupOfEdge e).run s₀ = .ok (some src, s') → src < s₀.groups.size) :
     ∀ (es : List Edge) (ps : List (Nat × Cond)), psOf s₀ es = some ps → ∀ (t w : St), ASim P t w → ScopeLike s₀ w →
@@ -79,7 +79,7 @@ theorem E_rel (ok : P.Ok) (s₀ : St) (d : Dest) (hd : rnDest P.ρ d = d) (f₁ 
           revert a t' b w' k1 k2
           change rwp _ _ t w _
           rw [rwp_bind]
-          have hae := addExit_rel ok f₁ (2 * w.groups.size + 8) src d e.cond t w h hdg hnt
+          have hae := addExit_rel ok f₁ (2 * w.groups.size + 8) src d e.cond t w h hdg hnt hdn
           rw [hγ, hd] at hae
           refine rwp_of_wp_left (addExit_blk f₁ src d e.cond t) ?_
           refine rwp_of_wp_right (addExit_blk (2 * w.groups.size + 8) src d e.cond w) ?_
